@@ -89,9 +89,13 @@ pub fn any_doc(k: usize, nsym: usize) -> Map<String, Value> {
 pub fn state(m: &Melda) -> String {
     let mut s = Map::new();
     let mut objs = Map::new();
+    let reported = m.in_conflict();
     for id in m.get_all_objects() {
         let w = m.get_winner(&id).unwrap_or_else(|e| format!("ERR {}", e));
         let c: Vec<String> = m.get_conflicting(&id).map(|c| c.into_iter().collect()).unwrap_or_default();
+        // an object is reported in conflict exactly when it has conflicting (losing live) revisions, none of them the winner
+        assert!(reported.contains(&id) == !c.is_empty(), "in_conflict and get_conflicting disagree");
+        assert!(!c.contains(&w), "the winner is listed among the conflicting revisions");
         objs.insert(id, json!([w, c]));
     }
     s.insert("objects".to_string(), Value::from(objs));
